@@ -178,6 +178,9 @@ def r06_2_order(ctx):
                       and any("'_yatiml_extra' in" in t and not t.startswith('not ') for t in g.guard_texts(n))
                       and g.nid(o) in g.cfg.reachable(g.nid(n)) and g.nid(n) not in g.cfg.reachable(g.nid(o))
                       and not enclosing_loops(n, g.node) for n in ext)
+            # an OrderedDict built on the path where the class takes no _yatiml_extra has nothing to append
+            no_extra_path = any("'_yatiml_extra' in" in t and t.startswith('not ') for t in g.guard_texts(o)) and len(od) > 1
+            okx = okx or (no_extra_path and len(ext) == 1)
             r.check(okx and len(ext) == 1, 'extras (%s._yatiml_extra.items()) are appended after the parameters' % data,
                     g.key('extras-appended'), g.loc(o), 'extra attributes are not appended (once, in order) after the constructor '
                     'parameters')
